@@ -104,12 +104,16 @@ func (e *Exec) query(extra *Term, label string) (string, Model) {
 		e.stats.Regions += 0
 		DumpQuery(fmt.Sprintf("%s-%d-%d.smt2", e.cfg.DumpUnknown, os.Getpid(), e.solver.Stats.Unknown), e.pc, extra)
 	}
-	if res == "unknown" && e.cfg.OneShotMs > 0 && e.obligation {
-		// fall-back: fresh non-incremental solver(s)
-		for _, k := range e.cfg.FallbackSolvers {
-			r2, m2, _ := OneShot(k, e.cfg.OneShotMs, e.pc, extra, e.symvars)
-			e.stats.Forks += 0
+	if res == "unknown" && e.cfg.OneShotMs > 0 {
+		// fall-back: fresh non-incremental solvers in parallel (portfolio)
+		ms := e.cfg.OneShotMs
+		if !e.obligation {
+			ms = e.cfg.FeasOneShotMs
+		}
+		if ms > 0 {
+			r2, m2, k := Portfolio(e.cfg.FallbackSolvers, ms, e.pc, extra, e.symvars)
 			if r2 != "unknown" {
+				e.portfolioWins[k.String()]++
 				return r2, m2
 			}
 		}
@@ -124,6 +128,7 @@ func (e *Exec) addPC(t *Term) {
 		return
 	}
 	e.pc = append(e.pc, t)
+	e.pcSet[t] = true
 	e.noteFixed(t)
 }
 
@@ -177,6 +182,13 @@ func (e *Exec) branch(c *Term) bool {
 	}
 	if v, ok := e.evalFixed(c); ok {
 		return v != 0
+	}
+	// the condition (or its negation) is literally part of the path condition
+	if e.pcSet[c] {
+		return true
+	}
+	if e.pcSet[e.tc.BNot(c)] {
+		return false
 	}
 	if e.inInit {
 		e.unsupported("symbolic branch during package initialisation")
@@ -452,6 +464,7 @@ func (e *Exec) resetPath() {
 	e.ufCount = 0
 	e.nativeState = map[string]interface{}{}
 	e.md5Calls = nil
+	e.pcSet = map[*Term]bool{}
 	e.fixedModel = Model{}
 	e.fixedBits = nil
 	e.fixedEval = NewEvaluator(e.fixedModel)
@@ -639,6 +652,15 @@ func (e *Exec) symIntercept(name string, args []Value) (Value, bool) {
 		name := e.goString(args[0])
 		e.note("uninterpreted function " + name)
 		return tc.UF("uf_"+name, BV(16), e.intTerm(args[1]), e.intTerm(args[2])), true
+	case "symFmtFloat":
+		i := e.concInt(args[0], "float argument index")
+		if i < 0 || i >= len(e.floatArgs) {
+			e.unsupported("symFmtFloat: no such recorded float argument")
+		}
+		return e.floatArgs[i], true
+	case "symFmtFloatReset":
+		e.floatArgs = nil
+		return nil, true
 	case "symArrayMode":
 		e.arrayMode = e.boolTerm(args[0]) == tc.True
 		return nil, true
